@@ -158,7 +158,10 @@ pub fn text_of(html: &str) -> String {
     out
 }
 
-pub const PAYLOADS: [&str; 9] = [
+pub const PAYLOADS: [&str; 11] = [
+    // an entity next to real markup ("already escaped" must not be guessed from the content)
+    "fish &amp; chips <img src=x onerror=alert(1)>",
+    "&lt;b&gt; is written <b>",
     "<b>",
     "<img src=x onerror=alert(1)>",
     "&amp;",
@@ -325,7 +328,7 @@ pub fn check(rep: &mut Report) {
     rep.rule = "full product of input templates (results, prints, echoes, decorators, info/list output, every diagnostic family that quotes user text or source lines) x HTML payloads; each rendered as the web front end does and scanned: every `<` must start <span class=\"numbat-...\"> or </span>, spans balanced, every `&` must start a character reference, and a payload containing `<` never appears verbatim (thorough: + 6 payloads imitating the renderer's own markup); non-trivial = outputs whose text content contains payload metacharacters".into();
     rep.assumptions = vec![
         "the renderer's own markup consists only of <span class=\"numbat-*\"> elements".into(),
-        "payload alphabet of 9 strings; templates enumerate the diagnostic kinds that embed user text".into(),
+        "payload alphabet of 11 strings (thorough 17); templates enumerate the diagnostic kinds that embed user text".into(),
     ];
 }
 
